@@ -526,11 +526,11 @@ def loadData (text : List Char) (pbc : V3 Bool) (symbols : Option (List (Option 
 
 /-! ### LAMMPS dump file (atomman/load/atom_dump/load.py) -/
 
-/-- the variables of the header loop. `xlo … zhi` are unbound until the box lines were read. -/
-structure DS where
+/-- the variables of the header loop, except the offset of the atom table. `xlo … zhi` are unbound until the box
+    lines were read. -/
+structure DSC where
   pbc : Option (V3 Bool) := none
   natoms : Option Int := none
-  atomsStart : Option Nat := none
   xlo : Option Rat := none
   xhi : Option Rat := none
   ylo : Option Rat := none
@@ -544,6 +544,12 @@ structure DS where
   readTimestep : Bool := false
   bcount : Nat := 3
   names : Option (List Tok) := none
+deriving Repr, DecidableEq
+
+/-- all variables of the header loop: `atomsStart` is the `skiprows` value handed to pandas. -/
+structure DS where
+  c : DSC := {}
+  atomsStart : Option Nat := none
 deriving Repr, DecidableEq
 
 def minR (a b : Rat) : Rat := if b < a then b else a
@@ -567,42 +573,49 @@ def boundsLine (lf : Option Rat) (terms : Line) : Res (Rat × Rat × Option Rat)
     pure (mulBy lf a, mulBy lf b, some (mulBy lf c))
   else pure (mulBy lf a, mulBy lf b, none)
 
-def dsStepT (lf : Option Rat) (i : Nat) (terms : Line) (s : DS) : Res DS :=
-  if terms.isEmpty then pure s else
+/-- one iteration of the header loop on the terms of a line; the flag says that this line is the `ITEM: ATOMS` line
+    after which the table starts. -/
+def dsCore (lf : Option Rat) (terms : Line) (s : DSC) : Res (DSC × Bool) :=
+  if terms.isEmpty then pure (s, false) else
   if s.readNatoms then do
     let n ← pyInt (← term terms 0)
-    pure { s with natoms := some n, readNatoms := false }
-  else if s.readTimestep then pure { s with readTimestep := false }
+    pure ({ s with natoms := some n, readNatoms := false }, false)
+  else if s.readTimestep then pure ({ s with readTimestep := false }, false)
   else if s.bcount = 0 then do
     let (a, b, t) ← boundsLine lf terms
-    pure { s with xlo := some a, xhi := some b, xy := t.getD s.xy, bcount := 1 }
+    pure ({ s with xlo := some a, xhi := some b, xy := t.getD s.xy, bcount := 1 }, false)
   else if s.bcount = 1 then do
     let (a, b, t) ← boundsLine lf terms
-    pure { s with ylo := some a, yhi := some b, xz := t.getD s.xz, bcount := 2 }
+    pure ({ s with ylo := some a, yhi := some b, xz := t.getD s.xz, bcount := 2 }, false)
   else if s.bcount = 2 then do
     let (a, b, t) ← boundsLine lf terms
     match t with
-    | none => pure { s with zlo := some a, zhi := some b, bcount := 3 }
+    | none => pure ({ s with zlo := some a, zhi := some b, bcount := 3 }, false)
     | some yz =>
       match s.xlo, s.xhi, s.ylo, s.yhi with
       | some xlo, some xhi, some ylo, some yhi =>
         let lo := minR (minR (minR 0 s.xy) s.xz) (s.xy + s.xz)
         let hi := maxR (maxR (maxR 0 s.xy) s.xz) (s.xy + s.xz)
-        pure { s with zlo := some a, zhi := some b, yz := yz, bcount := 3,
-                      xlo := some (xlo - lo), xhi := some (xhi - hi),
-                      ylo := some (ylo - minR 0 yz), yhi := some (yhi - maxR 0 yz) }
+        let s' : DSC := { s with zlo := some a, zhi := some b, yz := yz, bcount := 3,
+                                 xlo := some (xlo - lo), xhi := some (xhi - hi),
+                                 ylo := some (ylo - minR 0 yz), yhi := some (yhi - maxR 0 yz) }
+        pure (s', false)
       | _, _, _, _ => throw "name"
   else if terms.head? = some (cs!"ITEM:") then do
     let t1 ← term terms 1
-    if t1 = cs!"TIMESTEP" then pure { s with readTimestep := true }
-    else if t1 = cs!"NUMBER" then pure { s with readNatoms := true }
+    if t1 = cs!"TIMESTEP" then pure ({ s with readTimestep := true }, false)
+    else if t1 = cs!"NUMBER" then pure ({ s with readNatoms := true }, false)
     else if t1 = cs!"BOX" then
       let n : Int := terms.length
       let flag (k : Int) : Bool := pyIndex terms (k + n - 3) = some (cs!"pp")
-      pure { s with pbc := some ⟨flag 0, flag 1, flag 2⟩, bcount := 0 }
-    else if t1 = cs!"ATOMS" then pure { s with names := some (terms.drop 2), atomsStart := some (i + 1) }
-    else pure s
-  else pure s
+      pure ({ s with pbc := some ⟨flag 0, flag 1, flag 2⟩, bcount := 0 }, false)
+    else if t1 = cs!"ATOMS" then pure ({ s with names := some (terms.drop 2) }, true)
+    else pure (s, false)
+  else pure (s, false)
+
+def dsStepT (lf : Option Rat) (i : Nat) (terms : Line) (s : DS) : Res DS := do
+  let r ← dsCore lf terms s.c
+  pure ⟨r.1, if r.2 then some (i + 1) else s.atomsStart⟩
 
 def dsStep (lf : Option Rat) (i : Nat) (line : RawLine) (s : DS) : Res DS := dsStepT lf i (termsN line) s
 
@@ -637,7 +650,7 @@ def renamePos (c : PCol) : PCol := if isPosLike c.prop then { c with prop := "po
 
 /-- everything after the header loop of `load('atom_dump', …)`, given all the rows pandas can see after the
     `ITEM: ATOMS` line. `given` is a caller-supplied `prop_info`. -/
-def loadDumpCore (s : DS) (rows : Option (List Line)) (symbols : Option (List (Option String)))
+def loadDumpCore (s : DSC) (rows : Option (List Line)) (symbols : Option (List (Option String)))
     (given : Option (List PCol)) (u : Units) : Res Loaded := do
   -- `matchprops` runs inside the header loop, `process_prop_info` after the box and the atoms were built
   let m ← match given, s.names with
@@ -666,7 +679,7 @@ def loadDumpLines (lines : List RawLine) (symbols : Option (List (Option String)
     (u : Units) : Res Loaded := do
   let lf ← lengthFactor u
   let s ← dsLoop lf 0 lines {}
-  loadDumpCore s (s.atomsStart.map fun k => rowsOf false (lines.drop k)) symbols given u
+  loadDumpCore s.c (s.atomsStart.map fun k => rowsOf false (lines.drop k)) symbols given u
 
 def loadDump (text : List Char) (symbols : Option (List (Option String))) (given : Option (List PCol)) (u : Units) :
     Res Loaded :=
@@ -725,7 +738,10 @@ def loadPoscarLines (lines : List RawLine) (symbols : Option (List (Option Strin
       pure ((lexLine l5).map fun t => some (String.ofList t), cnt, st, 8)
   let cart := isCartesianLine styleLine
   let natoms := counts.foldr (· + ·) 0
-  let raw ← (List.range natoms).mapM fun i => do coordLine (← nthLine lines (i + start))
+  -- `lines[i + start]` for `i < natoms`: a missing line (IndexError) and a malformed one (ValueError) are one class
+  let body := (lines.drop start).take natoms
+  if body.length ≠ natoms then throw "value"
+  let raw ← body.mapM coordLine
   let pos := raw.map fun v => if cart then V3.smul scale v else box.relToCart v
   let atype := atypeOfCounts counts
   let s0 := Loaded.init box ⟨true, true, true⟩ natoms (symbols.getD elements) []
